@@ -159,7 +159,8 @@ def jobs(tier, seed):
             if name in URL_SLOTS:
                 from ..mdutil import urlish
 
-                slot_spec = dict(spec_nocr, a=dict(NOCR, extra=urlish("a")), b=dict(NOCR, extra=urlish("b")))
+                ex = dict(exclude="\r\0\n") if name.startswith("autolink") else NOCR
+                slot_spec = dict(spec_nocr, a=dict(ex, extra=urlish("a")), b=dict(ex, extra=urlish("b")))
             if tier == "thorough":
                 _sharded(jobs, "render", base, weight=8, spec=slot_spec)
             else:
